@@ -95,6 +95,12 @@ struct SrcC { static const int K = SRC_K, LEN = SRC_LEN, N = SRC_N, E1 = SRC_E1,
 #ifndef IDX
 #define IDX 0
 #endif
+#ifndef BV
+#define BV 0
+#endif
+#ifndef W
+#define W 0
+#endif
 #ifndef COERCE
 #define COERCE 0
 #endif
@@ -279,17 +285,20 @@ static void obs_doc(const V &v, const M &m) {
 }
 
 // ---------------------------------------------------------------- pre-state builders (public constructors only)
-struct Slot { u64 raw[3]; };   // storage with arbitrary previous contents
+struct Slot { alignas(8) unsigned char raw[24]; };   // storage with arbitrary previous contents (a byte array keeps CBMC field-sensitive)
 static void slot_fill(Slot &s) {
-    s.raw[0] = vf_u64();
-    s.raw[1] = vf_u64();
-    s.raw[2] = vf_u64();
+    u64 a = vf_u64();
+    u64 b = vf_u64();
+    u64 c = vf_u64();
 #ifdef KF_EXCL_C12_number_ctor_uninit
-    vf_assume(s.raw[1] == 0);
+    vf_assume(b == 0);
 #endif
 #ifdef KF_ONLY_C12_number_ctor_uninit
-    vf_assume(s.raw[1] != 0);
+    vf_assume(b != 0);
 #endif
+    for (unsigned i = 0; i < 8; ++i) {
+        s.raw[i] = (unsigned char)(a >> (8 * i)); s.raw[8 + i] = (unsigned char)(b >> (8 * i)); s.raw[16 + i] = (unsigned char)(c >> (8 * i));
+    }
 }
 
 template <int K, int LEN> static V *mk_leaf(Slot &slot, MN &n) {   // a scalar or a string of LEN units
@@ -327,39 +336,40 @@ template <int K, int LEN> static V *mk_leaf(Slot &slot, MN &n) {   // a scalar o
     n.len = LEN;
     if (LEN > 0) n.s[0] = c[0];
     if (LEN > 1) n.s[1] = c[1];
-    if ((sel & 3) == 0) return new (raw) V(&c[0], SizeT(LEN));
-    if ((sel & 3) == 1) return new (raw) V(ST(&c[0], SizeT(LEN)));
-    if ((sel & 3) == 2) { const ST s(&c[0], SizeT(LEN)); return new (raw) V(s); }
+    if ((sel & 3) == 0) return new (raw) V((const char *)&c[0], SizeT(LEN));
+    if ((sel & 3) == 1) return new (raw) V(ST((const char *)&c[0], SizeT(LEN)));
+    if ((sel & 3) == 2) { const ST s((const char *)&c[0], SizeT(LEN)); return new (raw) V(s); }
     return new (raw) V(SVw(&c[0], SizeT(LEN)));
 }
 
+// Which overloads build an array is concrete (BV): a symbolic choice between paths that allocate member storage at
+// different places would make the members' kind tags symbolic again.
 template <int N, int E1, int E2> static V *mk_array(Slot &slot, M &m) {   // [E1?, E2?]
-    unsigned sel = vf_u8();
     slot_fill(slot);
     m.n.k = T::Array;
     void *raw = &slot;
     if (N == 0) {
-        if ((sel & 3) == 0) return new (raw) V(T::Array);
-        if ((sel & 3) == 1) return new (raw) V(T::Array, SizeT(2));
-        if ((sel & 3) == 2) return new (raw) V(AT());
+        if (BV == 0) return new (raw) V(T::Array);
+        if (BV == 1) return new (raw) V(T::Array, SizeT(2));
+        if (BV == 2) return new (raw) V(AT());
         const AT a;
         return new (raw) V(a);
     }
     AT a; Slot s1, s2; MN e;
     {
         V *x = mk_leaf<E1, 1>(s1, e);
-        if (sel & 1) a += Memory::Move(*x); else a += (const V &)*x;
+        if (BV & 1) a += (const V &)*x; else a += Memory::Move(*x);
         x->~V();
         m_push(m, e);
     }
     if (N > 1) {
         V *x = mk_leaf<E2, 1>(s2, e);
-        if (sel & 2) a += Memory::Move(*x); else a += (const V &)*x;
+        if (BV & 1) a += (const V &)*x; else a += Memory::Move(*x);
         x->~V();
         m_push(m, e);
     }
-    if (sel & 4) return new (raw) V(Memory::Move(a));
-    return new (raw) V(a);
+    if (BV & 2) return new (raw) V(a);
+    return new (raw) V(Memory::Move(a));
 }
 
 template <class C> static void mk(Slot &sv, Slot &st, M &m, M &tm, V *&v, V *&t) {
@@ -377,8 +387,7 @@ template <class C> static void mk(Slot &sv, Slot &st, M &m, M &tm, V *&v, V *&t)
 }
 
 // ---------------------------------------------------------------- scalar arguments of = and +=  (SEL fixes the kind)
-template <int S> static void scalar_arg(V &v, MN &n, bool append) {
-    unsigned w = vf_u8();
+template <int S> static void scalar_arg(V &v, MN &n, bool append, unsigned w) {   // w: overload; concrete when appending
     u64 x = vf_u64();
     mn_clear(n);
     if (S == 0) { n.k = T::Null; if (append) v += nullptr; else v = nullptr; }
@@ -436,7 +445,8 @@ extern "C" void h_step() {
 #if OP == OP_AS_SCALAR
     {
         MN a;
-        scalar_arg<SEL>(*v, a, false);
+        unsigned w = vf_u8();
+        scalar_arg<SEL>(*v, a, false, w);
         m_clear(m); m.n = a;
     }
 #elif OP == OP_AS_TYPE
@@ -460,7 +470,7 @@ extern "C" void h_step() {
         c[1] = char(vf_u8());
         c[2] = 0;
         c[LEN_A] = 0;
-        ST s(&c[0], SizeT(LEN_A));
+        ST s((const char *)&c[0], SizeT(LEN_A));
 #if SEL == 1
         const ST *nsp = nullptr; ST *nsq = nullptr;      // null String pointers: no effect
         if (w & 1) *v = nsp; else *v = nsq;
@@ -486,7 +496,7 @@ extern "C" void h_step() {
     }
 #elif OP == OP_AS_ARR || OP == OP_AP_ARR
     {
-        unsigned w = vf_u8();
+        const unsigned w = W;
         AT a; MN ae[2]; Slot s1, s2;
         mn_clear(ae[0]); mn_clear(ae[1]);
         if (AN > 0) { V *x = mk_leaf<5, 1>(s1, ae[0]); a += Memory::Move(*x); x->~V(); }
@@ -569,20 +579,19 @@ extern "C" void h_step() {
 #elif OP == OP_AP_SCALAR
     {
         MN a;
-        scalar_arg<SEL>(*v, a, true);
+        scalar_arg<SEL>(*v, a, true, W);
         m_to_array(m); m_push(m, a);
     }
 #elif OP == OP_AP_STR
     {
-        unsigned w = vf_u8();
+        const unsigned w = W;
         char c[3];
         c[0] = char(vf_u8());
         c[1] = char(vf_u8());
         c[2] = 0;
         c[LEN_A] = 0;
-        vf_assume(w < 4);
         if (w == 3) vf_assume((LEN_A < 1 || c[0] != 0) && (LEN_A < 2 || c[1] != 0));
-        ST s(&c[0], SizeT(LEN_A));
+        ST s((const char *)&c[0], SizeT(LEN_A));
         switch (w) {
             case 0: *v += Memory::Move(s); vf_assert(s.Length() == 0 && s.First() == nullptr, 320); break;
             case 1: *v += (const ST &)s; break;
@@ -616,7 +625,7 @@ extern "C" void h_step() {
     }
 #elif OP == OP_INDEX
     {
-        unsigned w = vf_u8();
+        const unsigned w = W;
         V *r;
         if ((w & 3) == 0) r = &((*v)[SizeT(IDX)]); else if ((w & 3) == 1) r = &((*v)[int(IDX)]); else r = &((*v)[u64(IDX)]);
         if (!(m.n.k == T::Array && m.n.cnt > IDX)) {     // auto-vivify: becomes an array of IDX+1 members, the new ones Undefined
@@ -627,7 +636,8 @@ extern "C" void h_step() {
         obs_node(*r, m.e[IDX]);
         obs_doc(*v, m);
         MN a;
-        scalar_arg<3>(*r, a, false);                      // write through the reference
+        unsigned w2 = vf_u8();
+        scalar_arg<3>(*r, a, false, w2);                      // write through the reference
         m.e[IDX] = a;
     }
 #elif OP == OP_REMOVE_INDEX
@@ -659,7 +669,7 @@ extern "C" void h_step() {
         c[0] = char(vf_u8());
         c[1] = 0;
         vf_assume(w < 3 && c[0] != 0);
-        const ST key(&c[0], SizeT(1));
+        const ST key((const char *)&c[0], SizeT(1));
         if (w == 0) v->Remove(&c[0], SizeT(1)); else if (w == 1) v->Remove(key); else v->Remove((const char *)&c[0]);
     }
 #elif OP == OP_GET_KEY
